@@ -75,12 +75,12 @@ class StatsHook:
         for d in self.dists(inst.dist_f):
             self.cmp(f"mean_fn_frequency[{d}]", obj.mean_fn_frequency(d), inst.f_mean(mf), sline, cv, inst)
             self.cmp(f"std_fn_frequency[{d}]", obj.std_fn_frequency(d), inst.f_std(vf), sline, cv, inst)
-            for n in (-2, -1, 1, 1.5):
+            for n in (-2, -1, 1, 1.5, -40):       # -40: the lower bound lies far below zero under the normal distribution - it is what it is
                 self.cmp(f"nth_std_fn_frequency[{d}]", obj.nth_std_fn_frequency(n, d), inst.f_nth(mf, vf, n), sline, cv, inst)
         for d in self.dists(inst.dist_a):
             self.cmp(f"mean_fn_amplitude[{d}]", obj.mean_fn_amplitude(d), inst.a_mean(ma), sline, cv, inst)
             self.cmp(f"std_fn_amplitude[{d}]", obj.std_fn_amplitude(d), inst.a_std(va), sline, cv, inst)
-            for n in (-1, 2):
+            for n in (-1, 2, -40):
                 self.cmp(f"nth_std_fn_amplitude[{d}]", obj.nth_std_fn_amplitude(n, d), inst.a_nth(ma, va, n), sline, cv, inst)
         if inst.fenc == inst.aenc:
             fs, as_ = inst.cov_scale()
